@@ -55,13 +55,25 @@ AnnotationFails(e, dm, dv, chain) ==
       \* generated provenance feature of piece j under alignment k
       span(j, k) == {(offs[j] + i + k) % P : i \in 0..(Len(pieces[j]) - 1)}
       isGen(g, j, k) == g.type = "source" /\ g.plasmid = src(j).id /\ Positions(g) = span(j, k)     \* names the input, spans its fragment
-      gens(k) == {i \in 1..Len(out.feats) : \E j \in 1..(m + 1) : isGen(out.feats[i], j, k)}
+      \* An input may itself carry a feature that looks exactly like the provenance feature generated for it (a product that was
+      \* given the id of one of its own parts, used again one level up): `alike(j)` counts them; one of the matching features
+      \* per piece is the generated one (which one is immaterial: they are equal in every field), the others are inherited.
+      matches(j, k) == {i \in 1..Len(out.feats) : isGen(out.feats[i], j, k)}
+      alike(j) == LET x == src(j)  a == cut(j)  nx == Len(x.seq) IN
+                  Cardinality({i \in 1..Len(x.feats) : /\ Inside(x.feats[i], a, nx, Len(pieces[j]))
+                                                        /\ x.feats[i].type = "source" /\ x.feats[i].plasmid = x.id
+                                                        /\ Cardinality(Positions(x.feats[i])) = Len(pieces[j])})
+      gens(k) == {Min(matches(j, k)) : j \in {jj \in 1..(m + 1) : matches(jj, k) # {}}}
       \* expected images of the input features lying entirely inside their retained fragment
       images(k) == Concat([j \in 1..(m + 1) |->
                       LET x == src(j)  a == cut(j)  nx == Len(x.seq)
                           keep == SelectSeq(x.feats, LAMBDA f : Inside(f, a, nx, Len(pieces[j])))
                       IN [i \in 1..Len(keep) |-> MapFeat(keep[i], a, nx, offs[j], k, P)]])
-      others(k) == LET idx == {i \in 1..Len(out.feats) : i \notin gens(k)}
+      \* a site between two bases that sits exactly on a junction of the product (its two neighbours come from different pieces):
+      \* the statement does not say whether a site AT the cut belongs to the fragment - it may or may not be carried over
+      onJunction(g, k) == /\ "between" \in DOMAIN g /\ g.between
+                          /\ \E j \in 1..(m + 1) : LET inj == Positions(g) \cap span(j, k) IN inj # {} /\ inj # Positions(g)
+      others(k) == LET idx == {i \in 1..Len(out.feats) : i \notin gens(k) /\ ~onJunction(out.feats[i], k)}
                        RECURSIVE sel(_)
                        sel(S) == IF S = {} THEN << >> ELSE <<out.feats[Min(S)]>> \o sel(S \ {Min(S)})
                    IN sel(idx)
@@ -74,7 +86,7 @@ AnnotationFails(e, dm, dv, chain) ==
         IN [inherit |-> BagEq(ki, ko),
             citesq  |-> BagEq(ci, co),
             cites   |-> BagEq(ci, co) /\ SeqToSet(out.refs) = UNION {{im[i].cites[c] : c \in 1..Len(im[i].cites)} : i \in 1..Len(im)},
-            tile    |-> \A j \in 1..(m + 1) : Cardinality({i \in 1..Len(out.feats) : isGen(out.feats[i], j, k)}) = 1]
+            tile    |-> \A j \in 1..(m + 1) : Cardinality(matches(j, k)) = 1 + alike(j)]
       judged == [k \in ks |-> Judge(k)]
   IN IF ks = {} THEN {}          \* product is not the formula: reported by C01
      ELSE Chk("C08:FeaturesInherited", \E k \in ks : judged[k].inherit)
